@@ -230,6 +230,17 @@ def binOpT (c : Cfg) (op : BinOp) (s t : TNum) : Res TNum :=
 
 def negT (t : TNum) : Res TNum := (elNegE t.toE).map (fun z => ofE z t.x.exp)
 
+/-- `%` (also the operator of `%=`) on two typed static numbers, whose narrowest types may differ in width and
+signedness: modulo is not a zero-degree operator (`scaled/binary_operator.h`), so the representations are never
+aligned; the elastic layer (`elastic_tag/policy.h`: `min` of the digits, signed when either operand is; both
+operands converted to one storage type that holds either of them) applies the built-in `%` — the rounding and
+overflow layers pass it through (`is_overflow<modulo_op>` is always false) — and the result keeps the dividend's
+exponent (`operator%(power, power)`, `scaled/definition.h`): the exact remainder of the truncating division at the
+resolution `2^(eL − eR)` of the quotient, for any pair of exponents -/
+def remT (c : Cfg) (s t : TNum) : Res TNum := do
+  let z ← elBin (repOp c) .mod s.toE t.toE
+  pure (ofE z s.x.exp)
+
 /-- comparison: alignment to the smaller exponent (wider elastic type), then by value -/
 def cmpT (op : CmpOp) (s t : TNum) : Res Bool := do
   let e := min s.x.exp t.x.exp
@@ -422,6 +433,9 @@ def binOpO (c : Cfg) (n : IntTy) (op : BinOp) (s t : Opnd) : Res TNum :=
       | .ub u => .ub u
       | _ => .ill "unexpected"
   | _ => .ill "operator outside the static model"
+
+/-- `%` where either operand may be a built-in integer (`from_value`, never scaled: not a zero-degree operator) -/
+def remO (c : Cfg) (n : IntTy) (s t : Opnd) : Res TNum := remT c (s.raw n) (t.raw n)
 
 /-- comparison with a built-in operand (`scaled_integer/operators.h`): the operand with the larger exponent is
 scaled to the smaller one -/
